@@ -208,6 +208,7 @@ fn class_name(c: SrcClass) -> &'static str {
         SrcClass::ZeroRuns => "zeroruns",
         SrcClass::BlockRepetitive => "blockrep",
         SrcClass::Zeros => "zeros",
+        SrcClass::LevelShift => "levelshift",
     }
 }
 fn class_from(s: &str) -> SrcClass {
@@ -217,6 +218,7 @@ fn class_from(s: &str) -> SrcClass {
         "lowentropy" => SrcClass::LowEntropy,
         "zeroruns" => SrcClass::ZeroRuns,
         "blockrep" => SrcClass::BlockRepetitive,
+        "levelshift" => SrcClass::LevelShift,
         _ => SrcClass::Zeros,
     }
 }
@@ -502,18 +504,23 @@ fn random_streams(rep: &Report, seed: u64, cases: usize, big_every: usize, max_b
                 _ => rng.urange(0, 40_000),
             }
         };
-        let class = *rng.pick(&gen::SRC_CLASSES);
+        // Every 40th case: a hash window of several KiB over image-like data with level
+        // shifts (sums over the window exceed 32 bits and must wrap, not clamp).
+        let bigwin = !big && i % 40 == 7;
+        let len = if bigwin { rng.urange(60_000, 300_000) } else { len };
+        let class = if bigwin { *rng.pick(&[SrcClass::LevelShift, SrcClass::LevelShift, SrcClass::ZeroRuns, SrcClass::Random]) } else { *rng.pick(&gen::SRC_CLASSES_EXT) };
         let dseed = rng.next_u64();
         let spec = DataSpec::Gen { seed: dseed, class, len };
         let data = Arc::new(spec.build());
-        let cfg = random_cfg(&mut rng, len);
+        let cfg = if bigwin { gen::gen_bigwindow_cfg(&mut rng) } else { random_cfg(&mut rng, len) };
         let mut loc = Local::default();
         let expect = tally(&cfg, &data, &mut loc);
         loc.cfgs.push(format!(
-            "{:?}/{}/{}",
+            "{:?}/{}/{}{}",
             cfg.algo,
             if cfg.min < cfg.window { "min<w" } else if cfg.min == cfg.window { "min=w" } else { "min>w" },
-            if cfg.max > (1 << 20) { "max>1MiB" } else { "max<=1MiB" }
+            if cfg.max > (1 << 20) { "max>1MiB" } else { "max<=1MiB" },
+            if cfg.window >= 3000 { "/window>=3000" } else { "" }
         ));
         if expect.iter().any(|c| c.1 > (1 << 20)) {
             loc.multi_refill += 1;
